@@ -99,7 +99,7 @@ MASK_MODES_NOALL = st.sampled_from(["dense", "dense", "dense", "none", "one", "s
 @st.composite
 def dataset(draw, max_inputs=4, min_inputs=1, clim="maybe", flavor="det", core_max=3, extra_max=2,
             allow_drop=True, allow_obsless=True, boundary_heavy=True, ordered_dims=False, max_members=4,
-            var_x=False, allow_all_missing=True, half_hours=False, other_pool=("temp", "wind", "zscore"), per_input_layout=True, before_2037=False, own_obs=False, clim_other=False):
+            var_x=False, allow_all_missing=True, half_hours=False, other_pool=("temp", "wind", "zscore"), per_input_layout=True, before_2037=False, own_obs=False, clim_other=False, allow_crossing=False):
     """flavor: 'det' (obs, fcst) | 'prob' (+cdf, quantiles, pit) | 'ens' (+ensemble) | 'full' (all) | 'mix' """
     if flavor == "mix":
         flavor = draw(st.sampled_from(["det", "det", "prob", "ens", "full"]))
@@ -192,6 +192,10 @@ def dataset(draw, max_inputs=4, min_inputs=1, clim="maybe", flavor="det", core_m
             Q = len(own)
             rank = dict((q, r) for r, q in enumerate(sorted(own)))
             raw = masked(draw, shape, st.lists(st.integers(-40, 40), min_size=Q, max_size=Q), draw(modes))
+            # stored quantiles of real files may cross (quantile regression does that); verif takes them as they are
+            crossing = allow_crossing and Q > 1 and draw(st.sampled_from([False, False, True]))
+            if crossing:
+                d["crossing_quantiles"] = True
             qs = []
             for a in range(shape[0]):
                 pa = []
@@ -202,7 +206,7 @@ def dataset(draw, max_inputs=4, min_inputs=1, clim="maybe", flavor="det", core_m
                         if cell is None:
                             pb.append([None] * Q)
                         else:
-                            sv = [v / 4.0 for v in sorted(cell)]     # non-decreasing in the level
+                            sv = [v / 4.0 for v in (cell if crossing else sorted(cell))]     # non-decreasing in the level unless 'crossing'
                             pb.append([sv[rank[q]] for q in own])
                     pa.append(pb)
                 qs.append(pa)
